@@ -55,7 +55,7 @@ structure Thread where
   cur : Nat := 0        -- message being processed
 
 structure Sys where
-  P : Params := ⟨0, 1, 1, 1, 0, 0, false, false, false⟩
+  P : Params := ⟨0, 1, 1, 1, 0, 0, false, false, false, 0⟩
   pool : Array MsgRec := #[]
   lps : Array (LPState GState) := #[]
   ths : Array Thread := #[]
@@ -288,9 +288,9 @@ def onDequeue (s : Sys) (r m : Nat) : Sys :=
 
 def parStep (s : Sys) (toks : List String) : Sys × String :=
   match toks with
-  | ["model", seed, lps, types, fan, thr, spread, rng, mem, t0, threads, _ckpt, tterm] =>
+  | "model" :: seed :: lps :: types :: fan :: thr :: spread :: rng :: mem :: t0 :: threads :: _ckpt :: tterm :: skew =>
     let P : Params := ⟨UInt64.ofNat (nat! seed), nat! lps, nat! types, nat! fan, nat! thr, nat! spread,
-      nat! rng != 0, nat! mem != 0, nat! t0 != 0⟩
+      nat! rng != 0, nat! mem != 0, nat! t0 != 0, nat! (skew.headD "0")⟩
     ({ s with P := P, tterm := nat! tterm, lps := Array.replicate (nat! lps) { st := {} },
               ths := Array.replicate (nat! threads) {},
               rng0 := Array.replicate (nat! lps) ⟨0, 0, 0, 0⟩,
@@ -418,7 +418,7 @@ def parStep (s : Sys) (toks : List String) : Sys × String :=
 
 
 structure SerialSys where
-  P : Params := ⟨0, 1, 1, 1, 0, 0, false, false, false⟩
+  P : Params := ⟨0, 1, 1, 1, 0, 0, false, false, false, 0⟩
   pending : List Event := []
   sts : Array GState := #[]
   termT : Array Bool := #[]
@@ -432,9 +432,9 @@ structure SerialSys where
 
 def serStep (s : SerialSys) (toks : List String) : SerialSys × String :=
   match toks with
-  | ["model", seed, lps, types, fan, thr, spread, rng, mem, t0, _threads, _ckpt, tterm] =>
+  | "model" :: seed :: lps :: types :: fan :: thr :: spread :: rng :: mem :: t0 :: _threads :: _ckpt :: tterm :: skew =>
     let P : Params := ⟨UInt64.ofNat (nat! seed), nat! lps, nat! types, nat! fan, nat! thr, nat! spread,
-      nat! rng != 0, nat! mem != 0, nat! t0 != 0⟩
+      nat! rng != 0, nat! mem != 0, nat! t0 != 0, nat! (skew.headD "0")⟩
     ({ s with P := P, sts := Array.replicate (nat! lps) {}, termT := Array.replicate (nat! lps) false,
               toTerm := nat! lps, tterm := nat! tterm }, "model ok")
   | ["period", p] => ({ s with period := nat! p }, "period")
@@ -491,7 +491,7 @@ Input: `model`, then every rank's `init` lines (seeded generator states), then p
 `finilp` lines. For each `commit` the model prints the content the sequential execution delivers to
 that LP at that position; the harness prints the content the implementation committed. -/
 structure SeqSys where
-  P : Params := ⟨0, 1, 1, 1, 0, 0, false, false, false⟩
+  P : Params := ⟨0, 1, 1, 1, 0, 0, false, false, false, 0⟩
   tterm : Nat := 0
   rng0 : Array Rng := #[]
   seq : Option (Array (Array Event) × Array GState) := none
@@ -504,9 +504,9 @@ def SeqSys.withSeq (s : SeqSys) : SeqSys :=
 
 def seqStep (s : SeqSys) (toks : List String) : SeqSys × String :=
   match toks with
-  | ["model", seed, lps, types, fan, thr, spread, rng, mem, t0, _threads, _ckpt, tterm] =>
+  | "model" :: seed :: lps :: types :: fan :: thr :: spread :: rng :: mem :: t0 :: _threads :: _ckpt :: tterm :: skew =>
     let P : Params := ⟨UInt64.ofNat (nat! seed), nat! lps, nat! types, nat! fan, nat! thr, nat! spread,
-      nat! rng != 0, nat! mem != 0, nat! t0 != 0⟩
+      nat! rng != 0, nat! mem != 0, nat! t0 != 0, nat! (skew.headD "0")⟩
     ({ s with P := P, tterm := nat! tterm, rng0 := Array.replicate (nat! lps) ⟨0, 0, 0, 0⟩,
               committed := Array.replicate (nat! lps) 0 }, "model ok")
   | ["init", _, lp, a, b, c, d] =>
@@ -544,7 +544,7 @@ GenModel instance with the timer decisions observed in the real run; prints the 
 `end`. Because the model's heap is the verbatim array algorithm, even the order of incomparable
 (equal-content, different destination) events must coincide with the implementation's. -/
 structure Serial2 where
-  P : Params := ⟨0, 1, 1, 1, 0, 0, false, false, false⟩
+  P : Params := ⟨0, 1, 1, 1, 0, 0, false, false, false, 0⟩
   tterm : Nat := 0
   period : Nat := 1000
   rng0 : Array Rng := #[]
@@ -570,9 +570,9 @@ where
 
 def serial2Step (s : Serial2) (toks : List String) : Serial2 × String :=
   match toks with
-  | ["model", seed, lps, types, fan, thr, spread, rng, mem, t0, _threads, _ckpt, tterm] =>
+  | "model" :: seed :: lps :: types :: fan :: thr :: spread :: rng :: mem :: t0 :: _threads :: _ckpt :: tterm :: skew =>
     let P : Params := ⟨UInt64.ofNat (nat! seed), nat! lps, nat! types, nat! fan, nat! thr, nat! spread,
-      nat! rng != 0, nat! mem != 0, nat! t0 != 0⟩
+      nat! rng != 0, nat! mem != 0, nat! t0 != 0, nat! (skew.headD "0")⟩
     ({ s with P := P, tterm := nat! tterm, rng0 := Array.replicate (nat! lps) ⟨0, 0, 0, 0⟩ }, "-")
   | ["period", p] => ({ s with period := nat! p }, "-")
   | ["sinit", lp, a, b, c, d] =>
